@@ -271,6 +271,15 @@ static InstResult run_fmt(const std::vector<CrashInfo> &cr, bool th, int shard, 
 			}
 			// character and string arguments
 			if(sp.ok && !sp.has_pos && sp.conv == 'c') { cases++; std::string got = do_fmt("<{" + s + "}>", 'a'); if(got != "<a>") throw Violation{"C19", "fmt-mismatch:char", "fmt {" + s + "} of 'a' = \"" + got + "\""}; }
+			// a char argument is a small integer unless the conversion is c: every value of the type, both signs
+			if(sp.ok && !sp.has_pos) for(int cv : {0, 1, 97, 127, -1, -42, -127, -128}) {
+				if(cv == 0 && sp.conv == 'c') continue;    // a NUL byte in the output: nothing to compare through c_str-free sinks either way
+				if(cv < 0 && sp.conv && !strchr("dic", sp.conv)) continue;   // radix of a negative number: not documented (C20 covers safety)
+				cases++;
+				std::string got = do_fmt("<{" + s + "}>", (char)cv);
+				std::string want = "<" + (sp.conv == 'c' ? std::string(1, (char)cv) : render_int(cv, sp)) + ">";
+				if(got != want) throw Violation{"C19", std::string("fmt-mismatch:char-") + (cv < 0 ? "negative" : "value"), "fmt {" + s + "} of char(" + std::to_string(cv) + ") = \"" + got + "\" expected \"" + want + "\""};
+			}
 			if(sp.ok && !sp.has_pos) { cases++; std::string got = do_fmt("<{" + s + "}>", (const char *)"str"); if(got != "<str>") throw Violation{"C19", "fmt-mismatch:cstr", "fmt {" + s + "} of \"str\" = \"" + got + "\""}; }
 		});
 	}
@@ -293,6 +302,114 @@ static InstResult run_fmt(const std::vector<CrashInfo> &cr, bool th, int shard, 
 		cases++; if(do_fmt("{:020}|{:20}", 123456789012345678L, 42) != "00123456789012345678|                  42") throw Violation{"C19", "fmt-mismatch:wide-width", "wide fields rendered wrongly"};
 	});
 	E.res.evaluations += cases; E.res.distinct += cases;
+	return E.finish();
+}
+
+
+// ------------------------------------------------------------------------------------------ ' flag under a locale with grouping
+// ISO C leaves ' to the locale (POSIX: "the integer portion of a decimal conversion shall be formatted with
+// thousands' grouping characters" as LC_NUMERIC's grouping/thousands_sep prescribe).  do_printf_ints takes
+// that locale as a parameter; in the C locale (covered above) it groups nothing.  Reference: lconv grouping
+// semantics - each byte is a group size counted from the right, the last one repeats, CHAR_MAX ends grouping.
+struct AgentL {
+	StrSink *sink; frg::va_struct *vsp; frg::locale_options lo;
+	frg::expected<frg::format_error> operator()(char c) { sink->append(c); return frg::success; }
+	frg::expected<frg::format_error> operator()(const char *c, size_t n) { sink->append(c, n); return frg::success; }
+	frg::expected<frg::format_error> operator()(char t, frg::format_options opts, frg::printf_size_mod szmod) {
+		frg::do_printf_ints(*sink, t, opts, szmod, vsp, lo);
+		return frg::success;
+	}
+};
+static std::string frg_printf_l(frg::locale_options lo, const char *format, ...) {
+	va_list args; va_start(args, format);
+	frg::va_struct vs; frg::arg arg_list[NL_ARGMAX + 1]; vs.arg_list = arg_list; va_copy(vs.args, args);
+	StrSink sink;
+	auto res = frg::printf_format(AgentL{&sink, &vs, lo}, format, &vs);
+	va_end(vs.args); va_end(args);
+	if(!res) throw Violation{"C19", "printf:error-result", "printf_format returned an error"};
+	return sink.out;
+}
+static std::string group_ref(const std::string &digits, const std::string &grouping, const std::string &sep) {
+	std::string out; size_t gi = 0; int left = grouping.empty() ? -1 : (signed char)grouping[0];
+	if(left <= 0 || left == CHAR_MAX) left = -1;
+	for(size_t i = digits.size(); i-- > 0;) {
+		out.insert(out.begin(), digits[i]);
+		if(left > 0 && --left == 0 && i) {
+			out.insert(0, sep);
+			if(gi + 1 < grouping.size()) gi++;
+			left = (signed char)grouping[gi];
+			if(left <= 0 || left == CHAR_MAX) left = -1;
+		}
+	}
+	return out;
+}
+static InstResult run_grouping(const std::vector<CrashInfo> &cr, bool th) {
+	Enumerator E("printf-grouping", "C19", cr);
+	std::vector<std::string> groupings = {"\3", "\3\2", "\1", "\2\3\1", std::string("\3") + char(CHAR_MAX), "\2", "\4\1", "\377", ""};
+	std::vector<std::string> seps = {",", "", "::"};
+	std::vector<unsigned long long> mags = {0};
+	{ unsigned long long v = 0; for(int d = 1; d <= 19; d++) { v = v * 10 + (d % 10 ? d % 10 : 7); mags.push_back(v); } mags.push_back(ULLONG_MAX); mags.push_back(LLONG_MAX); mags.push_back(1000); mags.push_back(999); mags.push_back(100000); mags.push_back(999999); }
+	std::vector<int> widths = {-1, 0, 1, 4, 5, 7, 8, 12, 30}, precs = {-1, 0, 1, 3, 4, 9, 25};
+	if(th) { widths.clear(); for(int w = -1; w <= 32; w++) widths.push_back(w); precs.clear(); for(int p = -1; p <= 28; p++) precs.push_back(p); }
+	for(auto &grp : groupings) for(auto &sep : seps) {
+		std::string gname; for(unsigned char c : grp) gname += "\\" + std::to_string(c);
+		E.eval("grouping=\"" + gname + "\" sep=\"" + sep + "\"", "printf.grouping", [&] {
+			// exact-size heap copies: a read in front of or behind either string is an ASan report
+			char *g = (char *)malloc(grp.size() + 1); memcpy(g, grp.c_str(), grp.size() + 1);
+			char *sp = (char *)malloc(sep.size() + 1); memcpy(sp, sep.c_str(), sep.size() + 1);
+			char *dp = (char *)malloc(2); memcpy(dp, ".", 2);
+			frg::locale_options lo(dp, sp, g);
+			for(int fb = 0; fb < 16; fb++) {
+				Flags f{bool(fb & 1), bool(fb & 2), bool(fb & 4), false, bool(fb & 8), true};
+				std::string fs = flag_str(f);
+				for(int w : widths) for(int p : precs) for(int conv = 0; conv < 3; conv++) for(unsigned long long m : mags) for(int neg = 0; neg < (conv < 2 ? 2 : 1); neg++) {
+					if(conv < 2 && m > (unsigned long long)LLONG_MAX) continue;
+					std::string d = "%" + fs; if(w >= 0) d += std::to_string(w); if(p >= 0) d += "." + std::to_string(p);
+					d += "ll"; d += "diu"[conv];
+					g_cases++;
+					std::string got = conv < 2 ? frg_printf_l(lo, d.c_str(), neg ? -(long long)m : (long long)m) : frg_printf_l(lo, d.c_str(), m);
+					// reference, built from the parts ISO C defines
+					std::string digits = (p == 0 && m == 0) ? "" : std::to_string(m);
+					bool lead = p > (int)digits.size();            // precision adds leading zeros: grouped or not is not specified
+					if(lead) digits.insert(0, p - digits.size(), '0');
+					std::string sign = conv == 2 ? "" : (neg && m) || (neg && !m && false) ? "-" : f.plus ? "+" : f.space ? " " : "";
+					if(conv < 2 && neg && m) sign = "-";
+					std::string body = group_ref(digits, grp, sep);
+					bool zero = f.zero && !f.minus && p < 0;
+					std::string cls = std::string("grouping:flags=") + fs + (w >= 0 ? ":w" : "") + (p >= 0 ? ":p" : "");
+					auto bad = [&](const std::string &what, const std::string &ref) {
+						throw Violation{"C19", "printf-mismatch:" + cls + ":" + what, "format \"" + d + "\" value " + (neg ? "-" : "") + std::to_string(m) + " grouping \"" + gname + "\" thousands_sep \"" + sep + "\": frigg \"" + got + "\" expected \"" + ref + "\""};
+					};
+					if(!lead && !zero) {
+						std::string ref = sign + body;
+						if((int)ref.size() < w) { if(f.minus) ref.append(w - ref.size(), ' '); else ref.insert(0, w - ref.size(), ' '); }
+						if(got != ref) bad("exact", ref);
+					} else {
+						// only what every reading agrees on: same sign and digits in order, separators only between digits, field at least width wide
+						std::string strip, want = sign + std::to_string(m);
+						std::string t = got;
+						if(!sep.empty()) for(size_t at; (at = t.find(sep)) != std::string::npos;) {
+							if(at == 0 || at + sep.size() >= t.size() || !isdigit((unsigned char)t[at - 1]) || !isdigit((unsigned char)t[at + sep.size()])) bad("separator-not-between-digits", want);
+							t.erase(at, sep.size());
+						}
+						size_t a = 0; while(a < t.size() && t[a] == ' ' && !(sign == " " && a + 1 < t.size() && t[a + 1] != ' ')) a++;
+						size_t b = t.size(); while(b > a && t[b - 1] == ' ') b--;
+						t = t.substr(a, b - a);
+						// drop leading zeros after the sign
+						size_t s0 = sign.size(); if(t.compare(0, s0, sign) != 0) bad("sign", want);
+						size_t z = s0; while(z + 1 < t.size() && t[z] == '0') z++;
+						strip = sign + t.substr(z);
+						if(p == 0 && m == 0) { if(t != sign) bad("digits", sign); }
+						else if(strip != want) bad("digits", want);
+						if(w > 0 && (int)got.size() < w) bad("narrower-than-width", want);
+						if(!sep.empty() && (int)got.size() > std::max<int>(w, (int)(sign.size() + group_ref(digits, grp, sep).size() + (zero ? 0 : 0))) && !zero) bad("wider-than-needed", want);
+					}
+				}
+			}
+			free(g); free(sp); free(dp);
+		});
+	}
+	E.res.evaluations += g_cases; E.res.distinct += g_cases; E.res.counters["printf_directive_evaluations"] = g_cases;
 	return E.finish();
 }
 
@@ -336,6 +453,7 @@ static std::vector<Instance> instances(const std::string &tier) {
 		if(!th && conv == 'i' && len > 1) continue;    // i is an alias of d: quick covers its default and hh forms
 		add(std::string("printf-%") + LEN[len] + conv, [=](const std::vector<CrashInfo> &cr) { return run_ints(cr, conv, len, th); });
 	}
+	add("printf-grouping", [=](const std::vector<CrashInfo> &cr) { return run_grouping(cr, th); });
 	add("printf-chars", [=](const std::vector<CrashInfo> &cr) { return run_chars(cr, th); });
 	int NS = th ? 16 : 8;
 	for(int s = 0; s < NS; s++) add("fmt-" + std::to_string(s), [=](const std::vector<CrashInfo> &cr) { return run_fmt(cr, th, s, NS); });
